@@ -1,4 +1,5 @@
 import ElkVerif.Model.Mini.Eval
+import ElkVerif.Model.Mini.Types
 import Driver.Util
 import Driver.Sexp
 /-!
@@ -206,7 +207,40 @@ def showOut : Out → String
   | .stuck w => "stuck " ++ w
   | .timeout => "timeout"
 
+def decBTy : Sexp → Option BTy
+  | .atom "int" => some .int
+  | .atom "bool" => some .bool
+  | .atom "str" => some .str
+  | _ => none
+
+def decSTy : Sexp → Option STy
+  | .atom "nil" => some .nil
+  | .list [.atom "opt", b] => (decBTy b).map .opt
+  | b => (decBTy b).map .base
+
+def showBTy : BTy → String
+  | .int => "int" | .bool => "bool" | .str => "str"
+
+def showSTy : STy → String
+  | .base b => showBTy b
+  | .nil => "nil"
+  | .opt b => "(opt " ++ showBTy b ++ ")"
+
+def decTEnv : Sexp → Option TEnv
+  | .list xs => optAll (xs.map fun
+      | .list [.atom x, t] => (decSTy t).map (x, ·)
+      | _ => none)
+  | _ => none
+
 def handle : List String → String
+  | ["tc", ctx, e] =>
+    -- `mini<TAB>tc<TAB>((x int) (z (opt int)))<TAB>EXPR` → the model checker's verdict
+    match (Sexp.parse ctx).bind decTEnv, (Sexp.parse e).bind decExpr with
+    | some g, some ex =>
+      match check g 64 ex with
+      | some t => "ok " ++ showSTy t
+      | none => "ok none"
+    | _, _ => "bad-op"
   | ["src", prog] =>
     match (Sexp.parse prog).bind decProg with
     | some p => "ok " ++ esc (ppProg p)
